@@ -325,8 +325,9 @@ func gen(r *rand.Rand, thorough bool, i int) []string {
 
 // ---------------------------------------------------------------------------------------------------------
 // oracle: per client and globally, the tokens poured inside one reset window never exceed the limit; a pour never
-// exceeds the faucet's balance. The oracle keeps its own windows from the successful pours: a window of length `reset`
-// starts at the first pour after the previous one ended.
+// exceeds the faucet's balance. The oracle keeps its own windows: a client's window of length `individual_reset` starts at
+// the client's first successful pour after its previous window ended; the global window of length `global_reset` starts at
+// the first successful faucet transaction (pour or refill) after the previous one ended.
 func oracle(ops, outs []string) *corr.Violation {
 	mk := func(sig, msg string) *corr.Violation {
 		return &corr.Violation{Signature: "C17:" + sig, Message: msg, Ops: ops, Impl: outs}
@@ -366,6 +367,15 @@ func oracle(ops, outs []string) *corr.Violation {
 				faucet, _ = new(big.Int).SetString(f[7], 10)
 			}
 		case "refill":
+			if strings.HasPrefix(outs[i], "ok ") && ok {
+				// the global reset window is anchored at the first faucet transaction that is saved after the previous window
+				// elapsed — a successful refill saves the global node, too, so it can open (or restart) the global window
+				now, _ := strconv.ParseInt(f[3], 10, 64)
+				d := new(big.Int).Mul(big.NewInt(now-g.start), big.NewInt(1e9))
+				if !g.open || d.Cmp(big.NewInt(c.gr)) >= 0 {
+					g = win{start: now, used: new(big.Int), open: true}
+				}
+			}
 			if strings.HasPrefix(outs[i], "ok ") {
 				a, _ := new(big.Int).SetString(strings.Fields(outs[i])[1], 10)
 				if faucet == nil {
@@ -398,7 +408,7 @@ func oracle(ops, outs []string) *corr.Violation {
 			}
 			u.used.Add(u.used, a)
 			g.used.Add(g.used, a)
-			// how far the known defect (limits checked with PourAmount, t.Value poured) can overshoot — anything beyond is something else
+			// how far the former defect (limits checked with PourAmount, t.Value poured; repaired by 4b549c9) could overshoot — kept as a separate signature
 			over := c.pour
 			if c.maxPour-1 > over {
 				over = c.maxPour - 1
@@ -439,7 +449,7 @@ func main() {
 			return 400
 		},
 		Fixed: [][]string{
-			eleven, // DESIGN §7 #6: shipped configuration, eleven pours of 99 ZCN in one window
+			eleven, // DESIGN §7 #6 (repaired by 4b549c9): shipped configuration, twelve pours of 99 ZCN in one window: ten succeed
 			{shipped, "pour 0 0 1700000000", "pour 0 5 1700000001", "pour 0 1000000000000 1700000002", "refill 0 7 1700000003", "refill 1 7 1700000003", "dump",
 				fmt.Sprintf("pour 0 0 %d", 1700000000+3*3600), "dump", fmt.Sprintf("pour 0 0 %d", 1700000000+48*3600), "dump"},
 			{"conf 1 3 5 9 1000000000 2000000000 100", "pour 0 2 100", "pour 0 2 100", "pour 0 2 100", "pour 0 2 100", "pour 1 2 100", "pour 1 2 100", "pour 2 2 100", "dump", "pour 0 2 101", "pour 0 2 102", "dump"},
